@@ -336,6 +336,7 @@ func (cr *checkRun) judge(start time.Time, stale []string) int {
 				violationLines = append(violationLines, fmt.Sprintf("VIOLATION property=%s replay=%s obligation=%s no-failing-input-found", p, rp.File, o.Name))
 			} else {
 				undecided = append(undecided, o.Name+" (refuted by solver, not reproduced: "+rp.Note+")")
+				nObl-- // never discharged and not claimed: listed, not counted
 			}
 		default: // unknown, timeout
 			if base != nil && base[o.Name] {
@@ -344,6 +345,7 @@ func (cr *checkRun) judge(start time.Time, stale []string) int {
 				violationLines = append(violationLines, fmt.Sprintf("VIOLATION property=%s replay=%s obligation=%s no-failing-input-found", p, rp, o.Name))
 			} else {
 				undecided = append(undecided, o.Name+" ("+r.Status+")")
+				nObl--
 			}
 		}
 		reports = append(reports, rep)
